@@ -15,3 +15,5 @@ def run(ck):
     region.r7_8_range_test_siblings(ck, P)
     region.r7_9_word_skip_depends_on_run_state(ck, P)
     region.r7_10_axis_symmetry(ck, P)
+    region.r6_8_extents_before_data_is_dropped(ck, P, 'C07-R12')
+    region.r7_11_limits_are_type_limits(ck, P)
